@@ -17,6 +17,7 @@
 #include <sys/wait.h>
 #include <fcntl.h>
 #include <signal.h>
+#include <dirent.h>
 
 namespace vx {
 
@@ -163,9 +164,18 @@ private:
         throw std::runtime_error("forksim: visited table full");
     }
 
+    static int thread_count()
+    {
+        int n = 0;
+        if (DIR* d = opendir("/proc/self/task")) { while (dirent* e = readdir(d)) if (e->d_name[0] != '.') n++; closedir(d); }
+        return n;
+    }
     void dfs(int depth)
     {
         if (depth >= max_depth) return;
+        // fork() is only a sound snapshot of a single-threaded process (e.g. a full flush outside IBD may start a
+        // LevelDB compaction thread): never expand from a process that grew a thread
+        if (thread_count() != 1) { sh->deadline_hit = 1; note_sample("HARNESS-NOTE: a state holder had more than one thread; its subtree was not expanded (history: " + hist_str() + ")"); return; }
         if (deadline_reached() || (budget_s > 0 && elapsed() > budget_s)) { sh->deadline_hit = 1; return; }
         std::vector<std::string> evs = events();
         for (size_t ei = 0; ei < evs.size(); ei++) {
